@@ -27,6 +27,7 @@ impl TryFrom<VertexLoaderConfig> for Box<[Vertex]> {
             let _ = pb.update(1);
             processed += 1;
         });
+        read_utils::require_csv_columns(&conf.vertex_list_csv, &["vertex_id", "x", "y"])?;
         let result: Box<[Vertex]> = read_utils::from_csv(&conf.vertex_list_csv, true, Some(cb))?;
 
         eprintln!();
